@@ -20,6 +20,9 @@ pub fn payload(id: LogId, class: u8) -> String {
                 4 => 70_000,
                 // 5: one write request above 1 MiB
                 5 => (1 << 20) + 1,
+                // 6, 7: MiB-scale entries (torn-tail and batch-size limits)
+                6 => 12 << 20,
+                7 => 17 << 20,
                 _ => 300,
             };
             let unit = format!("<{}:{}>", id.0, id.1);
@@ -232,6 +235,16 @@ pub fn refused(m: &RefLog, level: u8) -> Vec<(&'static str, Op)> {
         }
         if st.last.is_none() {
             v.push(("append_batch_first_at_5_second_gap", Op::Append(vec![e((t, 5), "ok"), e((t, 7), "XX")])));
+        }
+        // long batches (300 and 1100 entries) with a lower-term entry in the middle:
+        // everything before it stays, the call returns Err
+        if extended || st.last.is_none() {
+            for (name, len) in [("append_bulk300_reversal_mid", 300u64), ("append_bulk1100_reversal_mid", 1100u64)] {
+                let mut es: Vec<(LogId, String)> = (0..len).map(|k| e((t + 1, n + k), "ok")).collect();
+                let mid = (len / 2) as usize;
+                es[mid] = e((t, n + mid as u64), "XX");
+                v.push((name, Op::Append(es)));
+            }
         }
     }
     if let Some(c) = st.committed {
